@@ -292,6 +292,7 @@ MUTANTS = [
       "self._h5 = AspireFile(file_path, \"a\")\n            self.save_checkpoint_to_hdf(\n                self._h5 and state, self._h5, path=\"checkpoint\", dsetname=\"state\"\n            )", "C12.close"),
 ]
 NEUTRALS = [
+    M("forced checkpoint positional", _B, "maybe_checkpoint(force=True)", "maybe_checkpoint(True)"),
     M("cadence disjuncts swapped", _B, "should_checkpoint = force or (\n                checkpoint_every is not None\n                and checkpoint_every > 0\n                and iterations % checkpoint_every == 0\n            )",
       "should_checkpoint = (\n                checkpoint_every is not None\n                and checkpoint_every > 0\n                and iterations % checkpoint_every == 0\n            ) or force"),
     M("resize test mirrored", _U, "elif bdata.size != target[dsetname].shape[0]:", "elif target[dsetname].shape[0] != bdata.size:"),
